@@ -26,6 +26,7 @@ class Contract:
     assumed = False          # True: contract of a dependency / external (never verified here)
     ext_may_raise = False
     max_paths = 4000
+    symbolic_dicts = {}      # local name -> key kind ("int"): `name = {}` in the function under contract creates an unbounded symbolic map
     pyx_source = ()          # .pyx files whose extracted text is executed when Python code under this contract imports from them
     sequential = False       # True: the clauses of ensures / of an invariant are proved in order, each a hypothesis of the later ones
 
